@@ -1,19 +1,25 @@
 """C19 - refinement keeps the surface; simplification only removes redundancy."""
 
-_TRI_SPACE = 2600          # sorted triples n0>=n1>=n2 in 1..24 : C(26,3)
-_QUAD_Q = 12
-_QUAD_SPACE = _QUAD_Q ** 4  # all quadruples in 1..12
+
+def _tri_space(n):  # sorted triples n0>=n1>=n2 in 1..n : C(n+2,3)
+    return n * (n + 1) * (n + 2) // 6
+
+
+_TRI_N = {"quick": 24, "thorough": 32}       # the property's bound is 24; thorough goes beyond it
+_QUAD_Q = {"quick": 12, "thorough": 16}
+_TRI_SPACE = {t: _tri_space(n) for t, n in _TRI_N.items()}      # 2600 / 5984
+_QUAD_SPACE = {t: q ** 4 for t, q in _QUAD_Q.items()}           # 20736 / 65536
 
 CHECK = {
     "id": "C19",
     "level": "exploration",
-    "rule": ("five stages. patterns_tri: case idx = idx-th sorted edge-division triple (n0>=n1>=n2, 1..24; all 2600 enumerated, "
-             "EXHAUSTIVE for that bound): Partition::GetPartition's pattern is checked in its own frame (every vertex index used, "
+    "rule": ("five stages. patterns_tri: case idx = idx-th sorted edge-division triple (n0>=n1>=n2, 1..24 quick / 1..32 thorough; all 2600 / 5984 "
+             "enumerated, EXHAUSTIVE for that bound): Partition::GetPartition's pattern is checked in its own frame (every vertex index used, "
              "boundary vertices at j/n of their edge in order, every sub-triangle positively oriented in barycentric space, areas "
              "sum to the whole, every directed edge once, interior edges paired, unpaired edges = exactly the boundary cycle) and, "
              "for every distinct order of the triple and all 8 edge-direction masks, Partition::Reindex's output in the caller's "
              "frame (same edge checks against the caller's boundary cycle, interior indices exactly the promised range). "
-             "patterns_quad: idx = idx-th quadruple in 1..12 (all 20736 enumerated, EXHAUSTIVE for that bound), same checks in the "
+             "patterns_quad: idx = idx-th quadruple in 1..12 quick / 1..16 thorough (all 20736 / 65536 enumerated, EXHAUSTIVE for that bound), same checks in the "
              "unit square, 16 direction masks. refine_flat: seeded DSL program, an eps-valid tangent-free value M, one of "
              "Refine(n)/RefineToLength/RefineToTolerance (and a second round on the result): topology oracle, n*n count, every "
              "input vertex position present, volume/area equal within rounding bounds, P point classifications. refine_smooth: "
@@ -26,18 +32,20 @@ CHECK = {
              "flat refinements that decided >=1 point and grew the mesh; (op, smoother, producing operation, size) for smooth "
              "refinements that grew the mesh; (op, polyhedron family, n, decade of t/tMax, has-properties) for simplifications "
              "that removed triangles."),
-    # both pattern spaces (23336 tuples) + a floor for the three sampled stages
-    "min_nontrivial": {"quick": _TRI_SPACE + _QUAD_SPACE + 150, "thorough": _TRI_SPACE + _QUAD_SPACE + 400},
+    # both pattern spaces (23336 / 71520 tuples) + a floor for the three sampled stages
+    "min_nontrivial": {"quick": _TRI_SPACE["quick"] + _QUAD_SPACE["quick"] + 150,
+                       "thorough": _TRI_SPACE["thorough"] + _QUAD_SPACE["thorough"] + 400},
     # the check as a whole samples; the two pattern stages alone are exhaustive for their bounds
     # (stage key "exhaustive" below, counters *_space_fully_enumerated_by_this_run in the evidence)
     "exhaustive": {"quick": False, "thorough": False},
     "stages": [
         {"name": "patterns_tri", "variant": "asan", "harness": "c19_refine_simplify.cpp",
-         "cases": {"quick": _TRI_SPACE, "thorough": _TRI_SPACE}, "exhaustive": True,
+         "cases": dict(_TRI_SPACE), "exhaustive": True,
+         "params": {"maxTriDiv": dict(_TRI_N)},
          "case_timeout": 120},
         {"name": "patterns_quad", "variant": "asan", "harness": "c19_refine_simplify.cpp",
-         "cases": {"quick": _QUAD_SPACE, "thorough": _QUAD_SPACE}, "exhaustive": True,
-         "params": {"maxQuadDiv": _QUAD_Q},
+         "cases": dict(_QUAD_SPACE), "exhaustive": True,
+         "params": {"maxQuadDiv": dict(_QUAD_Q)},
          "case_timeout": 120},
         {"name": "refine_flat", "variant": "asan", "harness": "c19_refine_simplify.cpp",
          "cases": {"quick": 1200, "thorough": 12000},
@@ -74,8 +82,8 @@ CHECK = {
 }
 
 TEXT = {
-    "text": ("Held on the executions observed. Exhaustively for all sorted edge-division triples up to 24 and all quadruples up "
-             "to 12: each subdivision pattern uses every vertex, puts boundary vertices at their divisions, has only positively "
+    "text": ("Held on the executions observed. Exhaustively for all sorted edge-division triples up to 24 (32 in the thorough tier) and all "
+             "quadruples up to 12 (16): each subdivision pattern uses every vertex, puts boundary vertices at their divisions, has only positively "
              "oriented sub-triangles whose areas sum to the whole, pairs every interior edge, and Reindex maps it into the "
              "caller's frame for every order of the divisions and every edge direction. On sampled eps-valid solids: "
              "Refine(n)/RefineToLength/RefineToTolerance without tangents keep volume, area and point classification, keep "
@@ -86,8 +94,14 @@ TEXT = {
              "SetTolerance reports max(t, epsilon), and no value has tolerance below epsilon. Sampling apart from the two "
              "pattern spaces."),
     "note": ("Not checked: that new vertices of tangent-bearing refinement lie on the interpolated Bezier surface (no independent "
-             "oracle), property interpolation values, quads above 12 divisions. Hausdorff distance is sampled, not exact. "
+             "oracle), property interpolation values, quads above 12 (16) divisions. Hausdorff distance is sampled, not exact. "
              "Trusts the harness oracles and g++'s sanitizers; serial build only."),
     "technique": "runtime monitoring: exhaustive enumeration of internal subdivision patterns + differential oracles on public output under ASan+UBSan",
     "design_ref": "DESIGN.md 4 C19",
 }
+
+# development knob (mutation testing on a loaded machine): VERIF_C19_STAGES=a,b restricts the run to
+# those stages; the non-trivial floor then makes a silent run exit 2, never 0.
+import os as _os
+if _os.environ.get("VERIF_C19_STAGES"):
+    CHECK["stages"] = [s for s in CHECK["stages"] if s["name"] in _os.environ["VERIF_C19_STAGES"].split(",")]
